@@ -24,6 +24,25 @@ func isFloatType(t types.Type) bool {
 	return ok && b.Info()&types.IsFloat != 0
 }
 
+// reachesAvoiding: is there a path from a successor of `from` to `to` that does not enter `avoid`?
+func reachesAvoiding(from, to, avoid *ssa.BasicBlock) bool {
+	seen := map[*ssa.BasicBlock]bool{avoid: true}
+	stack := append([]*ssa.BasicBlock{}, Succs(from)...)
+	for len(stack) > 0 {
+		x := stack[len(stack)-1]
+		stack = stack[:len(stack)-1]
+		if seen[x] {
+			continue
+		}
+		seen[x] = true
+		if x == to {
+			return true
+		}
+		stack = append(stack, Succs(x)...)
+	}
+	return false
+}
+
 func runC01(c *Ctx) {
 	c.Rule("O1.7", "a step profile is a succession of constant levels laid end to end: the composite that NewStep builds starts each part at the time the previous part reported as its finish - the argument of startNext is the time returned by the current part's Next() on its !ok edge, read in the critical section that shifts (the rule of O2.5, shared)")
 	c.Borrow("C02", runC02, map[string]string{"O2.5": "O1.7"})
@@ -450,6 +469,29 @@ func runC01(c *Ctx) {
 			})
 		}
 		c.Check(apps == 1, "O1.4", fk(st)+":one-append-per-level", st.Pos(), fmt.Sprintf("%d append calls (want 1)", apps))
+		// every level becomes a part: the NewConst of an iteration is what is appended, and no path of the loop body
+		// goes from the NewConst back to the loop head without passing the append (a level that is skipped - say,
+		// because it has no tokens - no longer occupies its duration, and every later level starts early)
+		if loopConst != nil {
+			var app ssa.Instruction
+			EachInstr(loopConst.Parent(), func(in ssa.Instruction) {
+				if IsBuiltinCall(in, "append") {
+					app = in
+				}
+			})
+			okEvery, detail := false, "no append in the function that holds the level loop"
+			if app != nil {
+				isLevel := SliceAny(CC(app).Args[len(CC(app).Args)-1], func(v ssa.Value) bool { return Strip(v) == ssa.Value(loopConst) })
+				head := loopConst.Block()
+				if phi, ok := loopConst.Call.Args[0].(*ssa.Phi); ok {
+					head = phi.Block()
+				}
+				skips := app.Block() != loopConst.Block() && reachesAvoiding(loopConst.Block(), head, app.Block())
+				okEvery = isLevel && !skips && BlockCanReach(app.Block(), app.Block())
+				detail = fmt.Sprintf("the appended element is this iteration's NewConst (%v); a path from NewConst to the loop head avoids the append (%v)", isLevel, skips)
+			}
+			c.Check(okEvery, "O1.4", fk(st)+":every-level-is-appended", loopConst.Pos(), detail)
+		}
 	}
 	// composite keeps order: NewComposite stores the given slice itself
 	if nc := P.Func("core/schedule", "", "NewComposite"); nc == nil {
